@@ -376,6 +376,46 @@ func ruleShadowCopiesIndependent(c *Ctx) {
 		}
 		c.R.Check(len(others) == 0, rule, "copy:"+src[0], c.pos(st), "whether the field is copied depends on itself (or on a field it excludes)", fmt.Sprintf("whether %s is written depends on %v, fields it can be set together with: for a schema with both, only the first of the chain is marshaled and the other keyword is silently dropped, so the round-tripped schema accepts instances the original rejects", src[0], others))
 	})
+	// the same through a helper that is handed the address of the shadow field: setIfNonNil(&ms.Enum, s.Enum)
+	core.EachInstr(mar, func(i ssa.Instruction) {
+		call, ok := i.(*ssa.Call)
+		if !ok || call.Call.StaticCallee() == nil || !c.P.InPkg(call.Call.StaticCallee()) || len(call.Call.Args) < 2 {
+			return
+		}
+		fa, ok := call.Call.Args[0].(*ssa.FieldAddr)
+		if !ok {
+			return
+		}
+		if _, isLocal := fa.X.(*ssa.Alloc); !isLocal || c.isPkgNamed(fa.X.Type(), "Schema") {
+			return
+		}
+		if pt, ok := fa.X.Type().Underlying().(*types.Pointer); ok {
+			if _, named := pt.Elem().(*types.Named); named {
+				return
+			}
+		}
+		src := sortedKeys(c.schemaFieldsIn(call.Call.Args[1]))
+		if len(src) != 1 {
+			return
+		}
+		n++
+		var others []string
+		for _, g := range guardsLocal(call) {
+			for f := range c.schemaFieldsIn(g.Cond) {
+				if f == src[0] {
+					continue
+				}
+				pair := [2]string{f, src[0]}
+				if pair[0] > pair[1] {
+					pair[0], pair[1] = pair[1], pair[0]
+				}
+				if !excl[pair] {
+					others = append(others, f)
+				}
+			}
+		}
+		c.R.Check(len(others) == 0, rule, "copy:"+src[0], c.pos(call), "whether the field is copied depends on itself (or on a field it excludes)", fmt.Sprintf("whether %s is written depends on %v, fields it can be set together with: for a schema with both, only the first of the chain is marshaled and the other keyword is silently dropped", src[0], others))
+	})
 	c.R.Floor(rule, "conditional copies into the marshal shadow struct", n, 2)
 }
 
